@@ -525,7 +525,46 @@ pub fn c02(ctx: &mut Ctx) {
             let sp = if j == 0 { Spelling::plain() } else { Spelling::random(&mut rng) };
             let skew = skews[(i + j) % skews.len()] * 1_000_000_000;
             let now = now_for(&l, skew);
-            let s = sign_and_spell(&l, &mut rng, &sp, now);
+            let mut l = l.clone();
+            // an eighth of the cases: the service's requirements come out of an add/remove history of the growable
+            // container; the signer signs whatever the resulting lists demand
+            let mut reqs: Option<(Vec<(char, String)>, Vec<String>, Vec<String>, Vec<String>)> = None;
+            if (i + j) % 8 == 3 {
+                let (ops, a2, i2, p2) = random_req_history(&mut rng, 2 + (i % 7));
+                if !ops.is_empty() {
+                    l.headers.push(("X-Amz-Meta-Owner".into(), b"alice".to_vec()));
+                    l.use_date_header = false;
+                    for a in &a2 {
+                        let a = a.to_ascii_lowercase();
+                        if !l.signed.contains(&a) {
+                            l.signed.push(a);
+                        }
+                    }
+                    let mut present: Vec<String> = l.headers.iter().map(|(n, _)| n.to_ascii_lowercase()).collect();
+                    present.extend(["x-amz-date", "x-amz-security-token", "content-type", "content-length", "date"].iter().map(|x| x.to_string()));
+                    for nl in present {
+                        let wanted = i2.iter().any(|c| c.to_ascii_lowercase() == nl) || p2.iter().any(|p| nl.starts_with(&p.to_ascii_lowercase()));
+                        let exists = l.headers.iter().any(|(n, _)| n.to_ascii_lowercase() == nl) || (nl == "content-type" && l.content_type.is_some());
+                        if wanted && exists && !l.signed.contains(&nl) {
+                            l.signed.push(nl);
+                        }
+                    }
+                    reqs = Some((ops, a2, i2, p2));
+                }
+            }
+            let mut s = sign_and_spell(&l, &mut rng, &sp, now);
+            if let Some((ops, a2, i2, p2)) = reqs {
+                // decoys may have added headers the requirements cover but the signer did not sign: keep the case
+                // only if the reference rule says the requirements are met
+                if required_ok(&a2, &i2, &p2, &s.case.headers, &s.signed_names) {
+                    s.case.always = a2;
+                    s.case.ifreq = i2;
+                    s.case.prefixes = p2;
+                    s.case.vec_reqs = true;
+                    s.case.req_ops = ops;
+                    ctx.rep.count("gen.requirements_from_history");
+                }
+            }
             let class = format!(
                 "c02-{}{}",
                 if l.carrier == Carrier::Query { "query-carrier" } else { "header-carrier" },
@@ -593,6 +632,7 @@ pub fn simple_logical(carrier: Carrier, time_ns: i128) -> Logical {
         decoys: false,
         unsigned_date: false,
         raw_key: None,
+        dup_signed: None,
     }
 }
 
@@ -742,6 +782,29 @@ pub fn c04(ctx: &mut Ctx) {
             let sg = sign_and_spell(&l, &mut rng, &Spelling::plain(), now);
             let inside = x_off.abs() <= 900_000_000_000;
             let mut j = job(sg.case, if inside { Expect::Accept } else { Expect::Refuse(Some("SignatureDoesNotMatch")) }, "c04-both-date-headers", "C04: with an X-Amz-Date header present, freshness is decided by its instant alone; a Date header beside it must not decide");
+            j.expect_calls = Some(if inside { 1 } else { 0 });
+            jobs.push(j);
+        }
+        run_jobs(ctx, "VALIDATE", std::mem::take(&mut jobs));
+    }
+    // query carrier: the request's date is the X-Amz-Date *parameter*; X-Amz-Date / Date headers beside it
+    // (fresh or stale, signed or not) are ordinary headers
+    {
+        let t0: i128 = 1_440_938_160_000_000_000;
+        for k in 0..ctx.n(80, 800) {
+            let x_off: i128 = [0i128, 899, -900, 901, -901, 3600, -86_400, 900][k % 8] * 1_000_000_000;
+            let h_off: i128 = [0i128, 3600, -3600, 86_400, 901][k % 5] * 1_000_000_000;
+            let mut l = simple_logical(Carrier::Query, t0 + x_off);
+            l.time_style = (*rng.pick(&[0i64, -1800, 3600]), rng.below(64) as u8, 0);
+            let name = *rng.pick(&["X-Amz-Date", "x-amz-date", "Date"]);
+            l.headers.push((name.to_string(), render_time(t0 + h_off, (0, if k % 2 == 0 { 0 } else { 15 }, 0)).into_bytes()));
+            if k % 3 == 0 {
+                l.signed.push(name.to_ascii_lowercase());
+            }
+            let now = now_for(&simple_logical(Carrier::Query, t0), 0);
+            let sg = sign_and_spell(&l, &mut rng, &Spelling::plain(), now);
+            let inside = x_off.abs() <= 900_000_000_000;
+            let mut j = job(sg.case, if inside { Expect::Accept } else { Expect::Refuse(Some("SignatureDoesNotMatch")) }, "c04-query-carrier-with-date-header", "C04: on the query carrier freshness is decided by the X-Amz-Date parameter; a date header beside it must not decide");
             j.expect_calls = Some(if inside { 1 } else { 0 });
             jobs.push(j);
         }
@@ -949,9 +1012,9 @@ pub fn c03(ctx: &mut Ctx) {
         let now = now_for(&l, rng.range(-300, 300) as i128 * 1_000_000_000);
         let s = sign_and_spell(&l, &mut rng, &Spelling::plain(), now);
         // the reference-signed request is accepted and the provider is asked for exactly this scope
-        let mut j = job(s.case.clone(), Expect::Accept, "c03-valid", "C03: in-scope request refused");
-        j.expect_calls = Some(1);
-        jobs.push(j);
+        // (…access key and session token included: a token that travels in the *other* carrier's place is not
+        // this request's token)
+        jobs.push(accept_job(&s, "c03-valid", "C03: in-scope request refused, or the key provider was not asked for exactly this access key and session token"));
         let (ak, date, region, service) = (l.access_key.clone(), s.scope_date.clone(), l.region.clone(), l.service.clone());
         // near-miss credentials: the request keeps its (now stale) signature, the rule decides first
         let day_before = rs::ref_compact(l.time_ns - 86_400_000_000_000).1;
@@ -1021,6 +1084,26 @@ pub fn c03(ctx: &mut Ctx) {
             let mut j = job(c, expect, "c03-nearmiss", "C03: credential arity != 5 must be IncompleteSignature (400); any other scope mismatch SignatureDoesNotMatch (403) with no key lookup");
             j.expect_calls = Some(if scope_ok { 1 } else { 0 });
             jobs.push(j);
+        }
+        // header carrier: a byte that only *looks* like white space (0xA0, 0x85) right after the terminator or in
+        // front of the access key is part of the credential: wrong terminator (403) / another access key
+        if l.carrier == Carrier::Header && !s.credential.contains(|ch: char| !ch.is_ascii()) {
+            for glue in [0xa0u8, 0x85] {
+                let mut c = s.case.clone();
+                for (n, v) in c.headers.iter_mut() {
+                    if n.eq_ignore_ascii_case("authorization") {
+                        let pat = s.credential.as_bytes();
+                        if let Some(at) = v.windows(pat.len()).position(|w| w == pat) {
+                            v.insert(at + pat.len(), glue);
+                        }
+                    }
+                }
+                if c.headers != s.case.headers {
+                    let mut j = job(c, Expect::Refuse(Some("SignatureDoesNotMatch")), "c03-nearmiss", "C03: a credential whose terminator is followed by a byte 0xA0 / 0x85 does not end in aws4_request: scope mismatch (403), no key lookup");
+                    j.expect_calls = Some(0);
+                    jobs.push(j);
+                }
+            }
         }
         // foreign scope, correctly signed under the foreign scope's key, key provider would hand out that key
         {
@@ -1143,6 +1226,41 @@ fn required_ok(always: &[String], ifreq: &[String], prefixes: &[String], headers
         && always.iter().all(|a| has(&a.to_ascii_lowercase()))
         && ifreq.iter().all(|c| !names.contains(&c.to_ascii_lowercase()) || has(&c.to_ascii_lowercase()))
         && prefixes.iter().all(|p| names.iter().all(|n| !n.starts_with(&p.to_ascii_lowercase()) || has(n)))
+}
+
+/// A random add / remove / use history of the growable requirements container over a pool of overlapping names
+/// and prefixes in varying letter case, with the three lists the reference semantics says it ends with.
+pub fn random_req_history(rng: &mut Rng, len: usize) -> (Vec<(char, String)>, Vec<String>, Vec<String>, Vec<String>) {
+    let pool = ["X-Amz-Meta-Owner", "x-amz-meta-owner", "X-Amz-Target", "Accept", "My-Header1", "Content-Type", "X-Absent"];
+    let prefixes_pool = ["X-Amz-", "x-amz-meta-", "x-amz-", "X-Amz-Meta-O", "My-", "Z-"];
+    let (mut a2, mut i2, mut p2): (Vec<String>, Vec<String>, Vec<String>) = (vec![], vec![], vec![]);
+    let mut ops: Vec<(char, String)> = Vec::new();
+    for _ in 0..len {
+        let code = *rng.pick(&['A', 'I', 'I', 'P', 'P', 'a', 'i', 'p', 'p', 'V']);
+        let pick: &str = if "Pp".contains(code) { *rng.pick(&prefixes_pool) } else { *rng.pick(&pool) };
+        let name: String = match rng.below(3) {
+            0 => pick.to_ascii_lowercase(),
+            1 => pick.to_string(),
+            _ => pick.chars().map(|c| if rng.chance(1, 2) { c.to_ascii_uppercase() } else { c.to_ascii_lowercase() }).collect(),
+        };
+        let add = |l: &mut Vec<String>, h: &str| {
+            if !l.iter().any(|x| *x == h.to_ascii_lowercase()) {
+                l.push(h.to_string());
+            }
+        };
+        let remove = |l: &mut Vec<String>, h: &str| l.retain(|x| x.to_ascii_lowercase() != h.to_ascii_lowercase());
+        match code {
+            'V' => {}
+            'A' => add(&mut a2, &name),
+            'I' => add(&mut i2, &name),
+            'P' => add(&mut p2, &name),
+            'a' => remove(&mut a2, &name),
+            'i' => remove(&mut i2, &name),
+            _ => remove(&mut p2, &name),
+        }
+        ops.push((code, if code == 'V' { String::new() } else { name }));
+    }
+    (ops, a2, i2, p2)
 }
 
 pub fn c05(ctx: &mut Ctx) {
@@ -1298,6 +1416,25 @@ pub fn c05(ctx: &mut Ctx) {
                         }
                     }
                     c4.uri = c4.uri.replace(&String::from_utf8(rs::encode(listing.as_bytes())).unwrap(), &String::from_utf8(rs::encode(changed.as_bytes())).unwrap());
+                    // …or with a blank / TAB attached to it (header carrier: the list is split at ';' and nothing else)
+                    if l.carrier == Carrier::Header {
+                        let blank = *rng.pick(&[" ", "\t"]);
+                        let spaced = s.signed_names.iter().map(|n| if n == victim { if i % 8 < 4 { format!("{}{}", blank, n) } else { format!("{}{}", n, blank) } } else { n.clone() }).collect::<Vec<_>>().join(";");
+                        // a blank at the very start or end of the whole list would be trimmed with the parameter
+                        if !spaced.starts_with(blank) && !spaced.ends_with(blank) {
+                            let mut c5 = s.case.clone();
+                            for (n, v) in c5.headers.iter_mut() {
+                                if n.eq_ignore_ascii_case("authorization") {
+                                    *v = String::from_utf8_lossy(v).replace(&format!("SignedHeaders={}", listing), &format!("SignedHeaders={}", spaced)).into_bytes();
+                                }
+                            }
+                            if c5.headers != s.case.headers {
+                                let mut j5 = job(c5, Expect::Refuse(Some("SignatureDoesNotMatch")), "c05-listed-with-blank", "C05: a required header listed in the signed-header list only with a blank attached is not signed (entries are taken as sent)");
+                                j5.expect_calls = Some(0);
+                                jobs.push(j5);
+                            }
+                        }
+                    }
                     if c4.uri != s.case.uri || c4.headers != s.case.headers {
                         let mut j4 = job(c4, Expect::Refuse(Some("SignatureDoesNotMatch")), "c05-listed-in-other-case", "C05: a required header listed in the signed-header list only in another letter case is not signed (the list is taken as sent; only declared names match case-insensitively)");
                         j4.expect_calls = Some(0);
@@ -1403,6 +1540,23 @@ pub fn c19(ctx: &mut Ctx) {
                 }
             }
         }
+        // (b'') parameter names are case-sensitive: `credential=`, `SIGNATURE=` … are unknown items, whatever
+        // they carry and wherever they stand
+        for (k, name) in ["credential", "CREDENTIAL", "signature", "SIGNATURE", "signedheaders", "Signedheaders", "signedHeaders"].iter().enumerate() {
+            let evil = match name.to_ascii_lowercase().as_str() {
+                "credential" => format!("AKIDOTHER/{}/{}/{}/aws4_request", s.scope_date, l.region, l.service),
+                "signature" => bad_sig.clone(),
+                _ => "host;x-evil".to_string(),
+            };
+            let v = if k % 2 == 0 {
+                format!("AWS4-HMAC-SHA256 Credential={}, SignedHeaders={}, Signature={}, {}={}", s.credential, s.signed_names.join(";"), s.signature, name, evil)
+            } else {
+                format!("AWS4-HMAC-SHA256 {}={}, Credential={}, SignedHeaders={}, Signature={}", name, evil, s.credential, s.signed_names.join(";"), s.signature)
+            };
+            let mut c = s.case.clone();
+            c.headers[auth_idx].1 = v.into_bytes();
+            jobs.push(accept_job_case(c, &s, "c19-lookalike-auth-param", "C19: an Authorization item whose name differs from a parameter name in letter case is not a repetition of that parameter"));
+        }
         // (c) X-Amz-Date twice: the first; X-Amz-Date in preference to Date
         let date_idx = s.case.headers.iter().position(|(n, _)| n.eq_ignore_ascii_case("x-amz-date")).unwrap();
         let good_date = s.case.headers[date_idx].1.clone();
@@ -1472,12 +1626,28 @@ pub fn c19(ctx: &mut Ctx) {
             j.expect_calls = Some(0);
             jobs.push(j);
         }
+        // (e'') the X-Amz-Algorithm parameter arrives in a *folded form body* (both options on or only folding):
+        // still both carriers, still refused
+        for s3 in [false, true] {
+            let mut lb = l.clone();
+            lb.fold = true;
+            lb.s3 = s3;
+            lb.content_type = Some("application/x-www-form-urlencoded".into());
+            lb.body.clear();
+            lb.form = Some(vec![(b"X-Amz-Algorithm".to_vec(), b"AWS4-HMAC-SHA256".to_vec()), (b"b".to_vec(), b"1".to_vec())]);
+            lb.signed.retain(|x| x != "content-type");
+            lb.signed.push("content-type".into());
+            let sb = sign_and_spell(&lb, &mut rng, &Spelling::plain(), now);
+            let mut j = job(sb.case, Expect::Refuse(Some("SignatureDoesNotMatch")), "c19-both-carriers", "C19: an Authorization header plus an X-Amz-Algorithm parameter folded in from the form body (with or without S3 mode) must be refused");
+            j.expect_calls = Some(0);
+            jobs.push(j);
+        }
         // (f') folded form body repeating X-Amz-* parameters of the query carrier: URL values come first
         {
             let mut lq = l.clone();
             lq.carrier = Carrier::Query;
             lq.fold = true;
-            lq.s3 = false;
+            lq.s3 = rng.chance(1, 2);
             lq.content_type = Some("application/x-www-form-urlencoded".into());
             lq.body.clear();
             lq.form = Some(vec![
